@@ -23,12 +23,12 @@ MANIFEST = dict(
          "analyze_precise_exact: the code-shaped engine model Search.v (frames, history/response hints, state-dependent move generator, "
          "iterative deepening) with MakePrecise and no table reports the exhaustive negamax value and a first move attaining it, on fresh "
          "engines and on engines left by any history of earlier calls, for a call cancelled at any point or never (a cancelled call "
-         "reports its deepest completed iteration). For boards up to 5x5 with at most 51 pieces and both evaluators of the check "
+         "reports its deepest completed iteration). For EVERY board size and every game of at most 64 pieces (the standard sets of 3x3..6x6) and both evaluators of the check "
          "(EvaluateWinner, built-in weights) no hypothesis about the rules engine or the evaluator is left: closure of the searched "
          "positions under moves (C01), completeness of AllMoves for hint moves (C03), a live position has a legal move (C04, C02), "
-         "|eval| <= MaxEval (C18) and the bound on |AllMoves| are discharged (C05_analyze_precise_exact, _game); for larger boards the "
-         "theorem holds under the explicit side condition `within` (the searched tree stays inside the model's loop fuel of 690 "
-         "generated moves per node and C01's 64-piece stack limit). Computed examples: Analyze next to exhaustive negamax on live 3x3 "
+         "|eval| <= MaxEval (C18) are discharged (C05_analyze_precise_exact_64, _game64); for larger games the "
+         "theorem holds under the explicit side condition `within` (the searched tree stays inside C01's 64-piece stack limit; "
+         "the model's loops over the move generator take the node's own number of generated moves as fuel - Search.gfuel, proved sufficient - so no bound on it is assumed). Computed examples: Analyze next to exhaustive negamax on live 3x3 "
          "positions, incl. a reused engine and a cancelled call. The model (transposition table, move generator "
          "with hint de-duplication, history/response heuristics, iterative deepening, cancellation) is replayed against MinimaxAI.Analyze/"
          "AnalyzeAll on every history of calls (PV, value, depth at L1; the 17 Stats counters at L2), and an independent exhaustive "
@@ -36,5 +36,4 @@ MANIFEST = dict(
     ref='5.5', technique='Coq proof (PVS = negamax) + extracted-model/implementation differential over call histories + exhaustive negamax oracle',
     note="Trusted: Coq kernel, extraction, transcription of ai/minimax.go and ai/moves.go (validated by execution), generators. "
          "The table clause (tt_valid_preserved, win_sound_complete), AnalyzeAll's set and symmetry de-duplication are tested, not proved. "
-         "The model's child loops have a fuel of 700: on positions with more than 690 generated moves (possible from 6x6 up) the model, "
-         "not the Go code, stops early; the value theorem excludes them through `within`.")
+         "The model's loops over the move generator are bounded by the node's own number of generated moves (a first version used a constant fuel of 700, which made the model - not the Go code - stop early on positions with more moves; found by the C17 low-reserve family and removed).")
